@@ -8,6 +8,8 @@ Matches(p, d) ==
   CASE p.k = "term"   -> d.t = p.t
     [] p.k = "vrange" -> p.lo <= d.v /\ d.v <= p.hi
     [] p.k = "id"     -> d.id = p.id
+    [] p.k = "or"     -> d.t = p.t \/ (p.lo <= d.v /\ d.v <= p.hi)
+    [] p.k = "andnot" -> d.t = p.t /\ ~(p.lo <= d.v /\ d.v <= p.hi)
     [] OTHER          -> FALSE
 
 OAdd(S, d) == S \cup {d}
